@@ -170,22 +170,31 @@ pub fn run(cli: Cli) -> ! {
             specs.push(Spec { proxy, limiter: true, stall: "connected-silent".into(), hostile: 1, login: true });
         }
     }
-    // a crowd: hundreds (thorough: thousands) of connections held open at a cheap stall point
+    // a crowd: hundreds (thorough: thousands) of connections held open at a cheap stall point; both ends of
+    // every connection are file descriptors of this process, several schedules run side by side
+    let fd_limit = raise_fd_limit();
+    let crowd_cap = (fd_limit.saturating_sub(400) / 2) as usize;
+    if crowd_cap < 300 {
+        rep.assume(&format!("the limit on open files ({fd_limit}) is too low for the crowd schedules (600 connections, both ends in this process); they were skipped"));
+    }
+    let mut crowds: Vec<Spec> = vec![];
     for proxy in [false, true] {
+        if crowd_cap < 300 {
+            break;
+        }
         let mut crowd_stalls = vec!["connected-silent", "after-handshake", "mid-handshake-frame"];
         if proxy {
             crowd_stalls.push("inside-proxy-header-half");
         }
         for stall in crowd_stalls {
-            for hostile in if thorough { vec![300usize, 1100, 3000] } else { vec![600usize] } {
-                specs.push(Spec { proxy, limiter: false, stall: stall.into(), hostile, login: false });
+            for hostile in if thorough { vec![300usize, 1100.min(crowd_cap), 3000.min(crowd_cap)] } else { vec![600usize.min(crowd_cap)] } {
+                crowds.push(Spec { proxy, limiter: false, stall: stall.into(), hostile, login: false });
             }
         }
     }
     let max_ms = AtomicU64::new(0);
     let served_n = AtomicU64::new(0);
-    par_for(specs.len(), |i| {
-        let s = &specs[i];
+    let one = |s: &Spec| {
         let (el, served, detail, hostile_ok) = run_schedule(s);
         if !hostile_ok {
             common::machinery("a hostile client could not connect");
@@ -202,7 +211,13 @@ pub fn run(cli: Cli) -> ! {
                 weight: (s.hostile * 10 + s.limiter as usize) as u64,
             });
         }
-    });
+    };
+    par_for(specs.len(), |i| one(&specs[i]));
+    // the crowds one after the other (each holds more than a thousand file descriptors)
+    for s in &crowds {
+        one(s);
+    }
+    specs.extend(crowds);
     rep.require("schedules in which the well-behaved client was served", served_n.load(Ordering::Relaxed), 10);
     rep.set("states", json!(specs.len()));
     rep.set("transitions", json!(specs.len()));
